@@ -334,7 +334,6 @@ class Instr(object):
                                            "_f_iter_nodes")),
                            (AttributeSet, ("__getattr__", "__getitem__", "__contains__")),
                            (tables.Array, ("__getitem__", "__iter__", "read")),
-                           (tables.Leaf, ("__len__",)),
                            (tables.Node, ("_f_getattr",)),
                            (tables.File, ("get_node", "__iter__", "__contains__"))):
             for n in names:
@@ -556,6 +555,10 @@ def build_doc(spec):
         doc.networks[0].projections[0].connection_wds[0].delay = None           # TypeError in exportHdf5
     elif bad == "none_id_pop" and doc.networks and doc.networks[0].populations:
         doc.networks[0].populations[-1].id = None                               # TypeError in exportHdf5
+    elif bad == "us_delay" and doc.networks and doc.networks[0].projections and \
+            doc.networks[0].projections[0].connection_wds:
+        # exportHdf5 tests `'s' in delay` before `'us' in delay`: float('10u') -> ValueError
+        doc.networks[0].projections[0].connection_wds[0].delay = "10us"
     return doc
 
 
@@ -615,7 +618,7 @@ def gen_network(rng, k, rich=True):
             pr["conns"] = [[j, rng.randint(0, 3), rng.randint(0, 3)] for j in range(rng.randint(1, 4))]
         elif r < 0.85:
             pr["wd"] = [[j, rng.randint(0, 3), rng.randint(0, 3), rng.choice([0.5, 1.0, 2.0]),
-                         rng.choice(["1ms", "0.5 ms", "2s", "10us"])] for j in range(rng.randint(1, 3))]
+                         rng.choice(["1ms", "0.5 ms", "2s"])] for j in range(rng.randint(1, 3))]
         net["projs"].append(pr)       # r >= .85: an empty projection
     net["eprojs"] = []
     for i in range(rng.choice([0, 0, 1])):
@@ -678,8 +681,10 @@ def gen_h5_spec(rng):
     spec["cells"] = [{"id": "cell%d" % i, "nseg": rng.randint(1, 2)} for i in range(rng.choice([0, 0, 1]))]
     spec["networks"] = [gen_network(rng, i) for i in range(rng.choice([1, 1, 1, 2]))]
     r = rng.random()
-    if r < 0.08:
+    if r < 0.06:
         spec["bad"] = "none_delay"
+    elif r < 0.11:
+        spec["bad"] = "us_delay"
     elif r < 0.16:
         spec["bad"] = "none_id_pop"
     elif r < 0.26:
@@ -711,7 +716,7 @@ DAMAGE = [None, None, None, "no_root", "bad_xml", "bad_shape", "no_id_attr", "no
 def handles_open(path):
     import tables
     path = os.path.abspath(path)
-    reg = [f for f in list(tables.file._open_files.filenames) if os.path.abspath(f) == path]
+    reg = [h.filename for h in list(tables.file._open_files.handlers) if os.path.abspath(h.filename) == path]
     fds = []
     for fd in os.listdir("/proc/self/fd"):
         try:
@@ -724,13 +729,12 @@ def handles_open(path):
 
 def release(path, rec):
     import tables
-    for f in list(tables.file._open_files.filenames):
-        if os.path.abspath(f) == os.path.abspath(path):
-            for h in list(tables.file._open_files.get_handlers_by_name(f)):
-                try:
-                    h.close()
-                except Exception:
-                    pass
+    for h in list(tables.file._open_files.handlers):
+        if os.path.abspath(h.filename) == os.path.abspath(path):
+            try:
+                h.close()
+            except Exception:
+                pass
     for p in rec.proxies:
         try:
             p._real.close()
@@ -988,11 +992,11 @@ def cure(case, obj):
     elif bad == "nonsense_member":
         obj.izhikevich_cells.pop()
         done = True
-    elif bad == "none_delay":
+    elif bad in ("none_delay", "us_delay"):
         for net in obj.networks:
             for pr in net.projections:
                 for c in pr.connection_wds:
-                    if c.delay is None:
+                    if c.delay is None or c.delay == "10us":
                         c.delay = "1ms"
                         done = True
     elif bad == "none_id_pop":
@@ -1002,6 +1006,9 @@ def cure(case, obj):
                     pp.id = "cured_p%d" % i
                     done = True
     if case["kind"] == "hw":
+        if len(obj.networks) > 1:       # a second network cannot be written (group "network" exists already)
+            del obj.networks[1:]
+            done = True
         for net in obj.networks:
             if net.synaptic_connections or net.explicit_inputs:
                 net.synaptic_connections = []
@@ -1327,6 +1334,7 @@ def gen_cases(ctx):
     for _ in range(ctx.n(8, 50) * m):
         spec = gen_h5_spec(rng)
         spec.pop("bad", None)
+        del spec["networks"][1:]
         for net in spec["networks"]:
             net.pop("synconn", None)
             net.pop("expinputs", None)
